@@ -78,6 +78,31 @@ Definition run_linecol (s : sx) : sx :=
 (* 10: det_table (table) *)
 Definition run_det_table (s : sx) : sx := ofB (det_table (table_of_sx s)).
 
+(* 11: forest_ok_labelled_full (grammar forest labels chars rx ws start pos0 consume strict);
+       a label is () or ((kind id) s e fl) with fl = () or (fs le) *)
+Definition label_of_sx (s : sx) : option nsum :=
+  match sxL s with
+  | [] => None
+  | x :: _ =>
+      Some (sym_of_sx x, sxN (sx_nth s 1), sxN (sx_nth s 2),
+            match sxL (sx_nth s 3) with
+            | a :: b :: _ => Some (sxN a, sxN b)
+            | _ => None
+            end)
+  end.
+Definition run_forest_labelled (s : sx) : sx :=
+  let g := grammar_of_sx (sx_nth s 0) in
+  let F := forest_of_sx (sx_nth s 1) in
+  let labels := map label_of_sx (sxL (sx_nth s 2)) in
+  let inp := mkPInput (sxNs (sx_nth s 3)) (map sxNs (sxL (sx_nth s 4))) in
+  let ws := sxNs (sx_nth s 5) in
+  let tokok := fun y b e => match rx_of inp y b with
+                            | Some l => (b + l =? e)
+                            | None => false
+                            end in
+  ofB (forest_ok_labelled_full g tokok (skip_ws ws inp) (sxB (sx_nth s 9)) (sxN (sx_nth s 6))
+                               (sxN (sx_nth s 7)) (in_len inp) (sxB (sx_nth s 8)) F labels).
+
 Definition run (cmd : N) (arg : sx) : sx :=
   match cmd with
   | 1 => run_forest_stats arg
@@ -90,6 +115,7 @@ Definition run (cmd : N) (arg : sx) : sx :=
   | 8 => run_table_complete arg
   | 9 => run_linecol arg
   | 10 => run_det_table arg
+  | 11 => run_forest_labelled arg
   | 190 => run_c19_unescape arg
   | 191 => run_c19_build arg
   | 192 => run_c19_match arg
